@@ -413,8 +413,7 @@ func VH_c15_reset_ordering() {
 		vSettle()
 		vAssert(!finished() && a.fsm.outgoingCh.Len() == 0, "a full re-advertisement ran while an incremental fan-out to the same peer was in flight: its snapshot can overtake the newer change")
 		a.routeRefreshInProgress.RUnlock()
-		vSettle()
-		vAssert(finished(), "the re-advertisement never ran")
+		vAssert(vEventually(finished), "the re-advertisement never ran")
 		drain()
 		vReach("reset_waited")
 	} else {
@@ -424,8 +423,7 @@ func VH_c15_reset_ordering() {
 		vSettle()
 		vAssert(!finished() && a.fsm.outgoingCh.Len() == 0, "a route change was fanned out to a peer in the middle of a full re-advertisement to it")
 		a.routeRefreshInProgress.Unlock()
-		vSettle()
-		vAssert(finished(), "the route change was never processed")
+		vAssert(vEventually(finished), "the route change was never processed")
 		drain()
 		vReach("change_waited")
 	}
